@@ -7,7 +7,6 @@ REASONS = {
  'C05': 'Session behaviour = iostream parsing + std::string/vector tokenising + three cooperating threads; cannot be lowered for CBMC.',
  'C09': 'Data-race freedom of whole engine sessions needs happens-before over every access of every thread; CBMC cannot take libstdc++ thread/deque/shared_ptr code, and checking two or three lowered leaf functions would not decide the property.',
  'C10': 'Start/stop/ack protocol state lives in std::deque<std::shared_ptr<Command>>, virtual dispatch and std::thread lifecycles; not encodable for a bounded symbolic run.',
- 'C14': 'Equality of complete search results across sessions depends on every piece of left-over state feeding a full search; observable only by running searches, not by a bounded symbolic query.',
  'C16': 'Proof-kernel/extended-kernel search and path search are heap-based graph searches over std::vector/map/set with unbounded depth; no bounded encoding decides "never declares a reachable position illegal". (Its leaf CspSolver is claimed as C20.)',
  'C19': 'The book graph is a pointer-linked DAG in std::map/shared_ptr/weak_ptr with recursive propagation and stream (de)serialisation; not encodable.',
 }
